@@ -1,7 +1,7 @@
 (* Property C10: a nested scheduler behaves as one job; nesting is transparent.
    Only property theorems here. Model R, level 0. *)
 From AJ Require Import Common.Util Run.RModel Run.RFacts Run.RFacts2 Run.RInv Run.RInv4 Run.RInv5 Run.RMon Run.RProps1
-  Run.RProps2 Run.RProps3 Props.RExample.
+  Run.RProps2 Run.RProps3 Props.RExample Run.RWin Run.RProps4 Run.RShut1 Run.RShut2 Run.RTime Run.RFlat.
 
 (* (a) interface.  A nested scheduler starts (EBegin) under the very rule of an atomic job: all its
    requirements done, its parent's main loop running, a free slot in the parent's window (level
@@ -62,15 +62,38 @@ Proof.
 Qed.
 Print Assumptions C10_accepted_histories.
 
-(* (c) NOT PROVED: for critical nested schedulers without window, timeout or forever jobs every job
-   runs at the same times as in the flattened graph.  It is a relation between the executions of
-   two different trees (the nested scheduler dissolved into its parent: its entry jobs inherit its
-   requirements, the jobs that required it require all its jobs) and no simulation has been
-   proved.  The check decides it on the implementation: every generated tree that contains such a
-   nested scheduler is run as it is and with the scheduler dissolved, and every atomic job must
-   start and end at the same virtual instants with the same outcome up to the first instant at
-   which some scheduler aborts (within that instant the order of callbacks decides ties between a
-   completion and an abort, and nesting legitimately changes that order). *)
+(* (c) Flattening.  In the flattened graph (an unwindowed scheduler) a job starts at the instant its
+   last requirement finishes (C12).  A critical nested scheduler m without window or timeout, whose
+   jobs are atomic, not forever, with instantaneous handlers, under a parent without window, is
+   transparent in time: whenever time passes, m has begun as soon as its requirements are done and
+   each of its jobs whose own requirements are done has started (so entry jobs start at the instant
+   the last requirement of m finishes, the others at the instant their own last requirement
+   finishes); and m is over -- done for the jobs that require it -- as soon as its last job is
+   done.  These are the start and end instants the flattened graph gives. *)
+Theorem C10_transparent_start : forall lvl c h s m x, wf c = true -> 1 <= lvl -> Reach lvl c h s ->
+  quiescent c s = true -> transparent c m -> ph (Rn s (parent c m)) = PMain ->
+  (forall r, In r (reqs c m) -> is_done (st (Jb s r)) = true) ->
+  st (Jb s m) <> Idle /\ st (Jb s m) <> Created /\
+  (ph (Rn s m) = PMain -> In x (members c m) ->
+   (forall r, In r (reqs c x) -> is_done (st (Jb s r)) = true) ->
+   st (Jb s x) <> Idle /\ st (Jb s x) <> Created).
+Proof. exact transparent_start. Qed.
+Print Assumptions C10_transparent_start.
+
+Theorem C10_transparent_end : forall c h s m, wf c = true -> Reach 3 c h s -> quiescent c s = true ->
+  transparent c m -> members c m <> [] ->
+  (forall x, In x (members c m) -> is_done (st (Jb s x)) = true) ->
+  ph (Rn s m) = POver.
+Proof. exact transparent_end. Qed.
+Print Assumptions C10_transparent_end.
+
+(* NOT PROVED: the equality of the two executions as a relation between the nested tree and the
+   tree with m dissolved into its parent (a simulation between two different trees).  The check
+   decides it on the implementation: every generated tree that contains such a nested scheduler
+   is run as it is and with the scheduler dissolved, and every atomic job must start and end at
+   the same virtual instants with the same outcome up to the first instant at which some scheduler
+   aborts (within that instant the order of callbacks decides ties between a completion and an
+   abort, and nesting legitimately changes that order). *)
 
 Example C10_nonvacuous :
   accept 3 ex_cfg ex_hist = true /\
